@@ -76,3 +76,12 @@ Definition covered : list string := [
 
 Definition is_supported (name : string) : bool :=
   match find_cop name with Some o => supported o | None => false end.
+Definition is_present (name : string) : bool :=
+  match find_cop name with Some _ => true | None => false end.
+
+(* DOWNGRADE RULE: the obligations over the generated operations are stated for the operations that TRANSLATED IN THIS
+   RUN.  For an operation that the translator refuses in this run (SUnsupported, other than SharedMutable) the table
+   entries are vacuous and no theorem is claimed (every theorem has the hypothesis is_supported <op> = true); the
+   harness lists it as ops_downgraded and REQUIRES that the history oracle exercised it in this run without failure. *)
+Definition exch_ok (name : string) (args : list (string * pv)) (rp : reply) (r : request) (v : res pv) : bool :=
+  if is_supported name then exch_eqb (one_exchange name args rp) r v else true.
